@@ -11,8 +11,13 @@ REQUIRED_BRANCHES = [
     "tf", "doc", "conc-same", "concp-same",
     # every translated stemmer / normaliser / rune helper ran against the real function
     "stem:de_normalize", "stem:de_light", "stem:ar_normalize", "stem:ar_stem", "stem:fa_normalize", "stem:ckb_normalize", "stem:ckb_stem",
-    "stem:hi_normalize", "stem:hi_stem", "stem:es_light", "stem:it_light", "stem:pt_light", "stem:fr_light", "stem:fr_min",
+    "stem:in_normalize", "stem:hi_normalize", "stem:hi_stem", "stem:es_light", "stem:it_light", "stem:pt_light", "stem:fr_light", "stem:fr_min",
     "util:DeleteRune", "util:InsertRune", "util:BuildTermFromRunes", "util:BuildTermOpt", "util:TruncateRunes", "util:RunesEndsWith",
+    # code points of the nine Indic unicode script tables OUTSIDE the 0x80-wide main block (Devanagari Extended U+A8E0..,
+    # Extended-A U+11B00.., Tamil Supplement U+11FC0.., …) reached hi.Analyzer() / in.NormalizeFilter() inside a token; and the
+    # extended blocks of the other script tables the analysis packages consult
+    "script-table-outside-main-block", "script-table-extended:Arabic", "script-table-extended:Cyrillic", "script-table-extended:Han",
+    "script-table-extended:Latin",
     "util-outside-domain", "final-tokens", "final-empty", "mq-found", "malformed-input", "params-out-of-range",
     # all 24 bundled analyzers
     "an:keyword", "an:simple", "an:standard", "an:web", "an:ar", "an:cjk", "an:ckb", "an:da", "an:de", "an:en", "an:es",
@@ -25,7 +30,7 @@ ASSUMPTIONS = [
     "(checked on every replayed line, including invalid, truncated, over-long and surrogate encodings)",
     "container/ring with n slots behaves as the list of the last n values written",
     "dependency code is exercised, not modelled: blevesearch/segment (unicode tokenizer), regexp (regexp/exception/web tokenizers, "
-    "char filters), snowballstem and go-porterstemmer, x/text/unicode/norm, the Indic normaliser (bitset/map code) and lower-casing: their "
+    "char filters), snowballstem and go-porterstemmer, x/text/unicode/norm and lower-casing: their "
     "outputs are checked for Valid / SliceEq / Ordered / determinism / no panic on every generated input, nothing is proved about them",
     "translated stemmers (BlugeGen.C18S): Go slices are rendered as VALUES; the translator enforces a syntactic no-alias discipline "
     "(go/extract/trans_runes.go: no slice copied between two variables, mutating calls only as x = f(x) / return f(..), range bodies store "
@@ -34,6 +39,10 @@ ASSUMPTIONS = [
     "panic must coincide with crash); a Lean List shorter than 2^55 stands for a Go slice (len is a non-negative int)",
     "translated stemmers: unicode.IsLetter / unicode.In(r, Cf) are an opaque parameter `uc` of fr.norm / fr.stem / ckb.normalize; the "
     "no-crash theorems hold for EVERY table, the driver fills it with the values observed on the runes of each term",
+    "Indic normaliser (analysis/lang/in): Bluge.C18.Indic is a HAND transcription of normalize / compose over the extracted tables; "
+    "lookupScript (a range over a map of disjoint unicode script tables) is the parameter `look`, filled with what the harness observed with "
+    "unicode.Is; (*bitset.BitSet).Test is total (false beyond the length of the set) — the Gen facts maskField / maskUses / indexSites / digests "
+    "are obliged by decide to be the reviewed ones, and every `stem in_normalize` line replays the transcription against the real filter",
     "a component with no assignment to Start/End/PositionIncr and no analysis.Token construction (extracted table) is term-only",
     "C07: a boolean AND of term queries finds a document containing all the terms (used by the match-query round trip)",
 ]
@@ -48,8 +57,9 @@ LEVEL_TEXT = ("Lean 4 theorems over all byte strings / token streams / parameter
               "camel case, dictionary compound, CJK bigram, reverse; TokenFrequency, Document.Analyze); statelessness of every component "
               "(extracted receiver-write table); NO-PANIC AND TERMINATION, for all inputs, of the 30 in-repo stemmer / normaliser / rune-helper "
               "functions translated from source (de, ar, fa, ckb, hi, es, it, pt, fr light+minimal, analysis/util.go) and of the 14 token filters "
-              "built from them; …_partial, said plainly: WHICH stem they produce, and no-panic of the dependency stemmers (snowball, porter), of the "
-              "Indic normaliser and of the dependency tokenizers, are exercised by the correspondence stream only")
+              "built from them, and of the Indic normaliser (hand transcription over extracted tables, tied by decide obligations on the shape "
+              "of its source); …_partial, said plainly: WHICH stem they produce, and no-panic of the dependency stemmers (snowball, porter) "
+              "and of the dependency tokenizers, are exercised by the correspondence stream only")
 LEVEL_NOTE = ("trusted: Lean kernel + propext/Classical.choice/Quot.sound; the hand-written model Bluge.Analysis, the extractor go/extract/c18.go "
               "and the harness go/harness/c18; Go's unicode tables enter as observed parameters")
 TECHNIQUE = ("Lean 4 proof (pipeline laws, loop invariants of the transcribed filters; weakest-precondition calculus with loop invariants over the "
